@@ -406,6 +406,13 @@ def check(repo, rep):
         rep.unknown('_Limiter: no sample budget derived from max_read found')
     for f in msc:
         for d in ldefs[f]:
+            v_ = d['value']
+            lk_ = cx.model.lookup(v_[1]) if v_[0] == 'call' and v_[1][0] == 'g' else None
+            if f not in MS and lk_ and lk_[0] == 'class':
+                # the budget lives in a helper object of the package (a counter / budget class): its arithmetic is in that class's
+                # methods, which these formula rules do not follow
+                rep.unknown('_Limiter.%s holds an object (%s): the budget arithmetic inside it is not followed by the limiter rules' % (f, show(v_)[:60]))
+                continue
             rep.ob('limiter budget = round(max_read * sampling_rate) samples', f in MS, W(d['node']), '_Limiter.%s' % f, 'budget field %s is %s' % (f, show(d['value'])),
                    sample=dict(field=f, definition=show(d['value'])))
     BPS = [f for f, ds in ldefs.items() if all(P.prod(P.role('sample_width'), P.role('channels'))(d['value']) for d in ds)]
